@@ -3,6 +3,7 @@ package main
 import (
 	"go/ast"
 	"go/types"
+	"strconv"
 	"strings"
 )
 
@@ -18,6 +19,78 @@ func init() {
 	})
 }
 
+// canon renders e with the receiver of fn (and of its enclosing functions)
+// written "$recv" and parameter i written "$p<i>" (closure parameters
+// "$l<i>"), so that templates do not depend on how those are spelled.
+func canon(fn *Func, e ast.Node) string {
+	var t string
+	if x, ok := e.(ast.Expr); ok {
+		t = strings.ReplaceAll(expr(x), " ", "")
+	}
+	return canonText(fn, t)
+}
+
+func canonText(fn *Func, t string) string {
+	for f := fn; f != nil; f = f.Parent {
+		pre := "$l"
+		if f.Decl != nil {
+			pre = "$p"
+			if r := recvOf(f); r != "" && r != "_" {
+				t = replaceWord(t, r, "$recv")
+			}
+		}
+		if f.Type == nil || f.Type.Params == nil {
+			continue
+		}
+		i := 0
+		for _, fld := range f.Type.Params.List {
+			for _, nm := range fld.Names {
+				if nm.Name != "_" {
+					t = replaceWord(t, nm.Name, pre+itoa(i))
+				}
+				i++
+			}
+			if len(fld.Names) == 0 {
+				i++
+			}
+		}
+	}
+	return t
+}
+
+func itoa(i int) string { return strconv.Itoa(i) }
+
+// varOfType returns the name of the (first) parameter or local of fn whose
+// type prints as ts.
+func varOfType(fn *Func, ts string) string {
+	for f := fn; f != nil; f = f.Parent {
+		if f.Type == nil || f.Type.Params == nil {
+			continue
+		}
+		for _, fld := range f.Type.Params.List {
+			for _, nm := range fld.Names {
+				if o := f.Pkg.Info.Defs[nm]; o != nil && typeString(o.Type()) == ts {
+					return nm.Name
+				}
+			}
+		}
+	}
+	name := ""
+	ast.Inspect(fn.Body, func(n ast.Node) bool {
+		id, ok := n.(*ast.Ident)
+		if !ok || name != "" {
+			return name == ""
+		}
+		if o := fn.Pkg.Info.Defs[id]; o != nil {
+			if _, isVar := o.(*types.Var); isVar && typeString(o.Type()) == ts {
+				name = id.Name
+			}
+		}
+		return true
+	})
+	return name
+}
+
 func c20r1(c *RC) {
 	pr := c.P
 	enc := c.MustFn("metrics.(*Scope).GobEncode")
@@ -27,6 +100,15 @@ func c20r1(c *RC) {
 	}
 	// encode: for i, m := range metrics { list[i] = s.load(m) }; list sized len(metrics)
 	okE, sized := false, false
+	listE := ""
+	ast.Inspect(enc.Body, func(n ast.Node) bool {
+		if a, ok := n.(*ast.AssignStmt); ok && len(a.Lhs) == 1 && len(a.Rhs) == 1 {
+			if k, ok := a.Rhs[0].(*ast.CallExpr); ok && expr(k.Fun) == "make" && len(k.Args) == 2 && expr(k.Args[1]) == "len(metrics)" {
+				listE = expr(a.Lhs[0])
+			}
+		}
+		return true
+	})
 	ast.Inspect(enc.Body, func(n ast.Node) bool {
 		switch x := n.(type) {
 		case *ast.RangeStmt:
@@ -36,7 +118,7 @@ func c20r1(c *RC) {
 			i, m := expr(x.Key), expr(x.Value)
 			for _, st := range x.Body.List {
 				if a, ok := st.(*ast.AssignStmt); ok && len(a.Lhs) == 1 {
-					if ix, ok := a.Lhs[0].(*ast.IndexExpr); ok && expr(ix.Index) == i {
+					if ix, ok := a.Lhs[0].(*ast.IndexExpr); ok && expr(ix.Index) == i && expr(ix.X) == listE {
 						if call, ok := a.Rhs[0].(*ast.CallExpr); ok && enc.Pkg.CalleeName(call) == "metrics.(*Scope).load" && len(call.Args) == 1 && expr(call.Args[0]) == m {
 							okE = true
 						}
@@ -54,7 +136,7 @@ func c20r1(c *RC) {
 	// the list is what gets encoded
 	encList := false
 	for _, k := range callsIn(enc.Body) {
-		if enc.Pkg.CalleeName(k) == "encoding/gob.(*Encoder).Encode" && len(k.Args) == 1 && expr(k.Args[0]) == "list" {
+		if enc.Pkg.CalleeName(k) == "encoding/gob.(*Encoder).Encode" && len(k.Args) == 1 && expr(k.Args[0]) == listE && listE != "" {
 			encList = true
 		}
 	}
@@ -83,6 +165,12 @@ func c20r1(c *RC) {
 		return true
 	})
 	c.Check(okD, dec.QName()+"|element-i-to-metric-i", pr.Pos(dec.Body.Pos()), "GobDecode no longer stores element i of the decoded list into metric i (in slice order)")
+	listD := ""
+	for _, k := range callsIn(dec.Body) {
+		if dec.Pkg.CalleeName(k) == "encoding/gob.(*Decoder).Decode" && len(k.Args) == 1 {
+			listD = strings.TrimPrefix(expr(k.Args[0]), "&")
+		}
+	}
 	if store != nil {
 		loc, _ := fl.LocOf(store)
 		guarded := true
@@ -90,10 +178,10 @@ func c20r1(c *RC) {
 		fl.Walk(fl.Entry(), "", nil, Visitor{NoFacts: true,
 			Enter: func(from, to *cfg2Block, x string, s *Step) (string, bool) {
 				t := strings.ReplaceAll(expr(fl.edgeCond(from)), " ", "")
-				if (t == "len(list)!=len(metrics)" || t == "len(metrics)!=len(list)") && from.Succs[1] == to {
+				if (t == "len("+listD+")!=len(metrics)" || t == "len(metrics)!=len("+listD+")") && from.Succs[1] == to {
 					return "len", false
 				}
-				if (t == "len(list)==len(metrics)" || t == "len(metrics)==len(list)") && from.Succs[0] == to {
+				if (t == "len("+listD+")==len(metrics)" || t == "len(metrics)==len("+listD+")") && from.Succs[0] == to {
 					return "len", false
 				}
 				return x, false
@@ -174,7 +262,7 @@ func c20r2(c *RC) {
 		ok := false
 		for _, k := range callsIn(m.Body) {
 			if m.Pkg.CalleeName(k) == "sync/atomic.AddInt64" && len(k.Args) == 2 {
-				if strings.HasPrefix(expr(k.Args[0]), "&c.") && strings.HasSuffix(expr(k.Args[1]), ".load()") && !strings.HasPrefix(expr(k.Args[1]), "c.") {
+				if strings.HasPrefix(canon(m, k.Args[0]), "&$recv.") && strings.HasSuffix(expr(k.Args[1]), ".load()") && !strings.HasPrefix(canon(m, k.Args[1]), "$recv.") {
 					ok = true
 				}
 			}
@@ -184,7 +272,7 @@ func c20r2(c *RC) {
 	if m := c.MustFn("metrics.Counter.merge"); m != nil {
 		ok := false
 		for _, k := range callsIn(m.Body) {
-			if m.Pkg.CalleeName(k) == "metrics.(*counterValue).merge" && strings.HasPrefix(expr(k.Fun), "x.") && len(k.Args) == 1 && strings.HasPrefix(expr(k.Args[0]), "y.") {
+			if m.Pkg.CalleeName(k) == "metrics.(*counterValue).merge" && strings.HasPrefix(canon(m, k.Fun), "$p0.") && len(k.Args) == 1 && strings.HasPrefix(canon(m, k.Args[0]), "$p1.") {
 				ok = true
 			}
 		}
@@ -203,14 +291,14 @@ func c20r2(c *RC) {
 			for _, st := range rng.Body.List {
 				if a, isA := st.(*ast.AssignStmt); isA && len(a.Rhs) == 1 {
 					if call, isC := a.Rhs[0].(*ast.CallExpr); isC && mg.Pkg.CalleeName(call) == "metrics.(*Scope).load" {
-						if sel, ok := call.Fun.(*ast.SelectorExpr); ok && expr(sel.X) != "s" {
+						if sel, ok := call.Fun.(*ast.SelectorExpr); ok && canon(mg, sel.X) == "$p0" {
 							src = expr(a.Lhs[0])
 						}
 					}
 				}
 				if es, isE := st.(*ast.ExprStmt); isE {
 					if call, isC := es.X.(*ast.CallExpr); isC && mg.Pkg.CalleeName(call) == "metrics.Metric.merge" && len(call.Args) == 2 {
-						if expr(call.Fun) == m+".merge" && expr(call.Args[0]) == "s.instance("+m+")" && expr(call.Args[1]) == src && src != "" {
+						if expr(call.Fun) == m+".merge" && canon(mg, call.Args[0]) == "$recv.instance("+m+")" && expr(call.Args[1]) == src && src != "" {
 							ok = true
 						}
 					}
@@ -225,14 +313,14 @@ func c20r2(c *RC) {
 		ast.Inspect(rs.Body, func(n ast.Node) bool {
 			switch x := n.(type) {
 			case *ast.CallExpr:
-				if rs.Pkg.CalleeName(x) == "sync/atomic.StorePointer" && len(x.Args) == 2 && strings.Contains(expr(x.Args[0]), "s.storage") && strings.Contains(expr(x.Args[1]), "nil") {
+				if rs.Pkg.CalleeName(x) == "sync/atomic.StorePointer" && len(x.Args) == 2 && strings.Contains(canon(rs, x.Args[0]), "$recv.storage") && strings.Contains(expr(x.Args[1]), "nil") {
 					clr = true
 				}
 			case *ast.RangeStmt:
 				if expr(x.X) == "metrics" {
 					m := expr(x.Value)
 					for _, k := range callsIn(x.Body) {
-						if rs.Pkg.CalleeName(k) == "metrics.(*Scope).store" && len(k.Args) == 2 && expr(k.Args[0]) == m && strings.ReplaceAll(expr(k.Args[1]), " ", "") == "u.load("+m+")" {
+						if rs.Pkg.CalleeName(k) == "metrics.(*Scope).store" && len(k.Args) == 2 && expr(k.Args[0]) == m && canon(rs, k.Args[1]) == "$p0.load("+m+")" {
 							cp = true
 						}
 					}
@@ -246,7 +334,7 @@ func c20r2(c *RC) {
 	if nm := c.MustFn("metrics.newMetric"); nm != nil {
 		ok := false
 		for _, k := range callsIn(nm.Body) {
-			if expr(k.Fun) == "makeMetric" && len(k.Args) == 1 && expr(k.Args[0]) == "len(metrics)" {
+			if canon(nm, k.Fun) == "$p0" && len(k.Args) == 1 && expr(k.Args[0]) == "len(metrics)" {
 				ok = true
 			}
 		}
@@ -266,7 +354,7 @@ func c20r3(c *RC) {
 			if ok && pr.fieldQName(fn.Pkg.FieldOf(sel)) == "exec.Task.Do" {
 				do = k
 			}
-			if fn.Pkg.CalleeName(k) == "metrics.(*Scope).Reset" && len(k.Args) == 1 && expr(k.Args[0]) == "nil" && strings.HasSuffix(expr(k.Fun), "task.Scope.Reset") {
+			if fn.Pkg.CalleeName(k) == "metrics.(*Scope).Reset" && len(k.Args) == 1 && expr(k.Args[0]) == "nil" && expr(k.Fun) == varOfType(fn, "*exec.Task")+".Scope.Reset" {
 				reset = k
 			}
 		}
@@ -285,7 +373,7 @@ func c20r3(c *RC) {
 		scoped := false
 		for _, k := range callsIn(fn.Body) {
 			if fn.Pkg.CalleeName(k) == "exec.bufferOutput" && len(k.Args) == 3 {
-				if strings.ReplaceAll(expr(k.Args[0]), " ", "") == "metrics.ScopedContext(ctx,&task.Scope)" {
+				if sc, ok := k.Args[0].(*ast.CallExpr); ok && fn.Pkg.CalleeName(sc) == "metrics.ScopedContext" && len(sc.Args) == 2 && expr(sc.Args[1]) == "&"+varOfType(fn, "*exec.Task")+".Scope" {
 					scoped = true
 				}
 			}
@@ -297,8 +385,9 @@ func c20r3(c *RC) {
 		fq := fn.QName()
 		fl := pr.Flow(fn)
 		var sc *ast.AssignStmt
+		taskV := varOfType(fn, "*exec.Task")
 		inspectNoLit(fn.Body, func(n ast.Node) bool {
-			if a, ok := n.(*ast.AssignStmt); ok && len(a.Lhs) == 1 && expr(a.Lhs[0]) == "ctx" && strings.ReplaceAll(expr(a.Rhs[0]), " ", "") == "metrics.ScopedContext(ctx,&task.Scope)" {
+			if a, ok := n.(*ast.AssignStmt); ok && len(a.Lhs) == 1 && canon(fn, a.Lhs[0]) == "$p0" && canon(fn, a.Rhs[0]) == "metrics.ScopedContext($p0,&"+taskV+".Scope)" {
 				sc = a
 			}
 			return true
@@ -329,7 +418,7 @@ func c20r3(c *RC) {
 			}
 			if lit, ok := d.Call.Fun.(*ast.FuncLit); ok {
 				for _, k := range callsIn(lit.Body) {
-					if fn.Pkg.CalleeName(k) == "metrics.(*Scope).Reset" && strings.HasSuffix(expr(k.Fun), "reply.Scope.Reset") && len(k.Args) == 1 && expr(k.Args[0]) == "&task.Scope" {
+					if fn.Pkg.CalleeName(k) == "metrics.(*Scope).Reset" && canon(fn, k.Fun) == "$p2.Scope.Reset" && len(k.Args) == 1 && expr(k.Args[0]) == "&"+taskV+".Scope" {
 						dl = true
 					}
 				}
@@ -342,8 +431,9 @@ func c20r3(c *RC) {
 		fq := fn.QName()
 		fl := pr.Flow(fn)
 		var adopt *ast.CallExpr
+		replyV := varOfType(fn, "exec.taskRunReply")
 		for _, k := range callsIn(fn.Body) {
-			if fn.Pkg.CalleeName(k) == "metrics.(*Scope).Reset" && strings.HasSuffix(expr(k.Fun), "task.Scope.Reset") && len(k.Args) == 1 && expr(k.Args[0]) == "&reply.Scope" {
+			if fn.Pkg.CalleeName(k) == "metrics.(*Scope).Reset" && expr(k.Fun) == varOfType(fn, "*exec.Task")+".Scope.Reset" && len(k.Args) == 1 && expr(k.Args[0]) == "&"+replyV+".Scope" {
 				adopt = k
 			}
 		}
@@ -409,7 +499,7 @@ func c20r3(c *RC) {
 		var walk func(f *Func)
 		walk = func(f *Func) {
 			for _, k := range callsIn(f.Body) {
-				if f.Pkg.CalleeName(k) == "metrics.(*Scope).Merge" && len(k.Args) == 1 && expr(k.Args[0]) == "&task.Scope" && strings.HasSuffix(expr(k.Fun), "r.scope.Merge") {
+				if f.Pkg.CalleeName(k) == "metrics.(*Scope).Merge" && len(k.Args) == 1 && canon(f, k.Args[0]) == "&$l0.Scope" && canon(f, k.Fun) == "$recv.scope.Merge" {
 					merge = true
 				}
 			}
@@ -422,7 +512,7 @@ func c20r3(c *RC) {
 		var walk2 func(f *Func)
 		walk2 = func(f *Func) {
 			for _, k := range callsIn(f.Body) {
-				if f.Pkg.CalleeName(k) == "exec.iterTasks" && len(k.Args) == 2 && expr(k.Args[0]) == "r.tasks" {
+				if f.Pkg.CalleeName(k) == "exec.iterTasks" && len(k.Args) == 2 && canon(f, k.Args[0]) == "$recv.tasks" {
 					iter = true
 				}
 			}
